@@ -7,6 +7,7 @@ import threading
 import weakref
 from concurrent.futures import ThreadPoolExecutor
 
+from harness import ref_text as RT
 from harness import core, gen_db as GD, gen_text as GT, impl_text as IT, observe as O, speller as SP
 from harness import parse_common as PC
 from harness.driver import Driver, DriverError
@@ -91,7 +92,7 @@ def docs_pool(seed, n):
     docs = [(t, False) for _, t in GT.corpus() if len(t) < 3000]
     for k in range(n):
         rng = random.Random(f'{seed}:{k}')
-        spec = SP.normalise_for_spelling(GD.gen_spec(rng, wild=False, max_tables=3), IT.norm_impl)
+        spec = SP.normalise_for_spelling(GD.gen_spec(rng, wild=False, max_tables=3), RT.ref_norm)
         if not SP.spellable(spec):
             continue
         text = SP.spell(spec, rng, {'varied': True})[0]
